@@ -500,7 +500,8 @@ class JSONVisitor:
             level = int(node["level"])
             if level >= 2:
                 level = Diagnostic.Level.from_docutils(level)
-                msg = node[0].astext()
+                # A system message created with an empty text has no paragraph child
+                msg = node[0].astext() if node.children else ""
                 diagnostic = DocUtilsParseError(msg, node.get_line())
                 diagnostic.severity = level
                 self.diagnostics.append(diagnostic)
